@@ -656,7 +656,8 @@ Theorem C01_continue : no_stutter -> forall s i m, Prompt s i m ->
   | Some j => exists m' b s', continue_execution code tr rbrk off has_place exit_code s
                                 = Ok (s', CStop (StopBp (pc_at j) (b_num b))) /\
                 find_bp (pc_at j) bps = Some b /\ b_ty b = TUser /\
-                r_bps (s_reg s') = bps /\ Prompt s' j m' /\ (forall x, m' x = m x)
+                r_bps (s_reg s') = bps /\ Prompt s' j m' /\ (forall x, m' x = m x) /\
+                r_dis (s_reg s') = r_dis (s_reg s)
   | None => exists s' r, continue_execution code tr rbrk off has_place exit_code s = Ok (s', r) /\
                 exit_seen r /\ ExitedOK s'
   end.
@@ -671,7 +672,8 @@ Proof.
                                           (with_bps s bps (proc_at m0 i0))
                                 = Ok (s', CStop (StopBp (pc_at j) (b_num b))) /\
                 find_bp (pc_at j) bps = Some b /\ b_ty b = TUser /\
-                r_bps (s_reg s') = bps /\ Prompt s' j m' /\ (forall x, m' x = m x)
+                r_bps (s_reg s') = bps /\ Prompt s' j m' /\ (forall x, m' x = m x) /\
+                r_dis (s_reg s') = r_dis (s_reg s)
             | None => exists s' r, cont_loop code tr rbrk off has_place exit_code (loop_fuel tr)
                                           (with_bps s bps (proc_at m0 i0)) = Ok (s', r) /\
                 exit_seen r /\ ExitedOK s'
@@ -692,7 +694,7 @@ Proof.
     - destruct C as (m' & b & E & F & T & W' & Hm').
       apply next_hit_trace in En; [|lia]. destruct En as (Hj & _).
       exists m', b. eexists. split; [exact E|]. split; [exact F|]. split; [exact T|]. split; [reflexivity|].
-      split; [|intro x; rewrite Hm'; apply Hm0].
+      split; [|split; [intro x; rewrite Hm'; apply Hm0|reflexivity]].
       constructor; cbn [with_bps with_rp s_status s_proc s_reg r_bps]; auto; [lia|].
       eapply steady_mono; [exact St|lia].
     - exact C. }
@@ -733,7 +735,7 @@ Theorem add_prompt : forall s i m a c,
   Prompt s i m -> mapped code a = true -> has_place a = true -> readable code a -> code a = Some c ->
   exists s' m', add_at_addr code has_place s a = (s', OAdded (r_next (s_reg s))) /\ Prompt s' i m' /\
     r_bps (s_reg s') = ins_bp (mk_bp a (r_next (s_reg s)) c true TUser) (r_bps (s_reg s)) /\
-    (forall x, m' x = if x =? a then Some INT3 else m x).
+    (forall x, m' x = if x =? a then Some INT3 else m x) /\ r_dis (s_reg s') = r_dis (s_reg s).
 Proof.
   intros s i m a c [Hst Hp Hi W St] Hm Hpl Hr Hc. unfold add_at_addr. rewrite Hst, Hm, Hpl. cbn [andb].
   assert (Hal: p_alive (s_proc s) = true). { rewrite Hp. cbn [p_alive proc_at]. now apply Nat.ltb_lt. }
@@ -747,7 +749,7 @@ Proof.
     + constructor.
       * intros b [Hb|Hb]; [subst b; cbn; auto|]. apply in_del_bp in Hb. apply (st_types _ _ St). tauto.
       * intros b [Hb|Hb] Ht; [subst b; cbn in Ht; discriminate|]. apply in_del_bp in Hb. apply (st_entry _ _ St); tauto.
-  - intro x. rewrite M'. rewrite Hp. reflexivity.
+  - split; [|reflexivity]. intro x. rewrite M'. rewrite Hp. reflexivity.
 Qed.
 
 (* break remove <addr> at a prompt (no uninit breakpoints while the debuggee runs) *)
@@ -838,7 +840,376 @@ Proof.
   intros s Hd He Hx. unfold drop. rewrite Hd, He. destruct (s_status s); cbn; auto.
 Qed.
 
+(* ====================================================================================== *)
+(* ---------- start-up: from the initial state through `run` to the first prompt ---------- *)
+Section Startup.
+Variable entry : N.
+Hypothesis H_off : off <= entry.
+Hypothesis H_entry_readable : readable code entry.
+Hypothesis H_rbrk_readable : readable code rbrk.
+Hypothesis H_rbrk_entry : rbrk <> entry.
+(* the ELF entry point (_start) is executed at most once *)
+Hypothesis H_entry_once : forall k k', (k < length tr)%nat -> (k' < length tr)%nat ->
+  pc_at k = entry -> pc_at k' = entry -> k = k'.
+
+Lemma readable_some : forall a, readable code a -> exists c, code a = Some c.
+Proof.
+  intros a R. specialize (R 0). replace (a + 0) with a in R by lia.
+  destruct (code a) as [c|]; [eauto|]. exfalso. apply R; [cbn; tauto|reflexivity].
+Qed.
+
+Definition entry_u : ubp := mk_ubp (Glob (entry - off)) 0 TEntry false.
+
+(* an uninit user breakpoint that will convert and enable: H_boundary for `break` before `run` *)
+Definition GoodU (u : ubp) : Prop :=
+  u_ty u = TUser /\ exists a, u_key u = Reloc a /\ mapped code a = true /\ has_place a = true /\
+                              readable code a /\ a <> entry /\ a <> rbrk.
+
+Lemma try_into_good : forall u, GoodU u -> exists a, u_key u = Reloc a /\
+  try_into_brkpt code off has_place u = Ok (mk_bp a (u_num u) 0 false TUser) /\ readable code a /\ a <> entry /\ a <> rbrk.
+Proof.
+  intros u (Ht & a & Hk & Hm & Hp & Hr & He & Hb). exists a. split; [exact Hk|]. split; [|auto].
+  unfold try_into_brkpt. rewrite Hk, Hm. cbn [bind]. rewrite Ht, Hp, orb_true_r. reflexivity.
+Qed.
+
+Definition EA_post (l : list ubp) (bps bps' : list bp) : Prop :=
+  (forall b, In b bps' -> In b bps \/
+     (b_ty b = TUser /\ exists u, In u l /\ u_key u = Reloc (b_addr b) /\ b_num b = u_num u)) /\
+  (forall b, In b bps -> (forall u, In u l -> u_key u <> Reloc (b_addr b)) -> In b bps') /\
+  (forall u, In u l -> exists b, In b bps' /\ u_key u = Reloc (b_addr b) /\ b_ty b = TUser).
+
+(* enable_all_breakpoints at the entry point: every good uninit breakpoint becomes an enabled
+   user breakpoint with its number; nothing else changes *)
+Lemma enable_all_ok : forall l bps p, Forall GoodU l -> WF bps (p_mem p) -> p_alive p = true ->
+  let r := enable_all_from code off has_place l bps p in
+  WF (fst r) (p_mem (snd r)) /\ same_but_mem p (snd r) /\ EA_post l bps (fst r).
+Proof.
+  induction l as [|u t IH]; intros bps p HG W Hal.
+  - cbn. split; [exact W|]. split; [apply same_but_mem_refl|]. unfold EA_post. repeat split; auto.
+    intros u [].
+  - inversion HG as [|? ? Gu Gt]; subst. cbn [enable_all_from].
+    destruct (try_into_good u Gu) as (a & Hk & Et & Hr & Hne & Hnb). rewrite Et.
+    destruct (readable_some a Hr) as [c Hc].
+    destruct (add_and_enable_ok bps p (mk_bp a (u_num u) 0 false TUser) c W Hal Hr Hc) as (p1 & E1 & S1 & W1 & M1).
+    rewrite E1. cbn [fst snd].
+    set (nb := bp_set (mk_bp a (u_num u) 0 false TUser) c true) in *.
+    assert (Hal1: p_alive p1 = true) by (destruct S1; congruence).
+    specialize (IH (ins_bp nb bps) p1 Gt W1 Hal1). cbn zeta in IH.
+    destruct IH as (W' & S' & (P1 & P2 & P3)).
+    split; [exact W'|]. split; [eapply same_but_mem_trans; eauto|].
+    unfold EA_post. split; [|split].
+    + intros b Hb. destruct (P1 b Hb) as [Hin|(Hty & u' & Hu' & Hk' & Hn')].
+      * destruct Hin as [Hnb'|Hin].
+        -- right. subst b. split; [reflexivity|]. exists u. split; [now left|]. split; [exact Hk|reflexivity].
+        -- left. apply in_del_bp in Hin. tauto.
+      * right. split; [exact Hty|]. exists u'. split; [now right|auto].
+    + intros b Hb Hno. apply P2.
+      * right. apply in_del_bp. split; [exact Hb|]. cbn [b_addr nb bp_set]. intro E.
+        apply (Hno u (or_introl eq_refl)). rewrite Hk, E. reflexivity.
+      * intros u' Hu'. apply Hno. now right.
+    + intros u' [Hu'|Hu'].
+      * subst u'.
+        destruct (existsb (fun v => address_eqb (u_key v) (Reloc a)) t) eqn:Ex.
+        -- apply existsb_exists in Ex. destruct Ex as [v [Hv Ev]].
+           destruct (P3 v Hv) as (b & Hb & Hkb & Htb). exists b. split; [exact Hb|]. split; [|exact Htb].
+           destruct (u_key v) as [a'|g]; cbn in Ev; [|discriminate]. apply N.eqb_eq in Ev. subst a'.
+           rewrite Hk. exact Hkb.
+        -- exists nb. split; [|split; [exact Hk|reflexivity]]. apply P2; [now left|].
+           intros v Hv E. cbn [b_addr nb bp_set] in E.
+           assert (existsb (fun v => address_eqb (u_key v) (Reloc a)) t = true).
+           { apply existsb_exists. exists v. split; [exact Hv|]. rewrite E. cbn. apply N.eqb_refl. }
+           congruence.
+      * apply P3. exact Hu'.
+Qed.
+
+Record PreStart (s : st) : Prop := mk_PreStart {
+  ps_status : s_status s = Unload;
+  ps_bps : r_bps (s_reg s) = [];
+  ps_entry_in : In entry_u (r_dis (s_reg s));
+  ps_others : forall u, In u (r_dis (s_reg s)) -> u = entry_u \/ GoodU u
+}.
+
+Lemma prestart_init : PreStart (init_launched code tr entry off).
+Proof.
+  constructor; cbn; auto. intros u [Hu|[]]. left. now subst.
+Qed.
+
+(* break <addr> before the program runs *)
+Lemma prestart_add : forall s a, PreStart s ->
+  mapped code a = true -> has_place a = true -> readable code a -> a <> entry -> a <> rbrk ->
+  PreStart (fst (add_at_addr code has_place s a)) /\
+  snd (add_at_addr code has_place s a) = OAdded (r_next (s_reg s)).
+Proof.
+  intros s a [Hs Hb He Ho] Hm Hp Hr Hne Hnb. unfold add_at_addr. rewrite Hs. cbn [fst snd]. split; [|reflexivity].
+  constructor; cbn [with_rp s_status s_reg r_bps r_dis]; auto.
+  - right. unfold del_dis. apply filter_In. split; [exact He|]. reflexivity.
+  - intros u [Hu|Hu].
+    + right. subst u. split; [reflexivity|]. exists a. cbn. auto 10.
+    + unfold del_dis in Hu. apply filter_In in Hu. apply Ho. tauto.
+Qed.
+
+Lemma next_hit_from_ext : forall B B' l k, (forall a, memb a B = memb a B') ->
+  next_hit_from B l k = next_hit_from B' l k.
+Proof.
+  intros B B' l. induction l as [|a t IH]; intros k H; [reflexivity|].
+  cbn [next_hit_from]. rewrite H. destruct (memb a B'); [reflexivity|]. now apply IH.
+Qed.
+
+Lemma memb_ext : forall B B' a, (forall x, In x B <-> In x B') -> memb a B = memb a B'.
+Proof.
+  intros B B' a H. destruct (memb a B) eqn:E1, (memb a B') eqn:E2; auto.
+  - apply memb_iff in E1. apply H in E1. apply memb_iff in E1. congruence.
+  - apply memb_iff in E2. apply H in E2. apply memb_iff in E2. congruence.
+Qed.
+
+(* C01 for `run`: from a pre-start state the program runs to the first arrival at the entry point,
+   arms every pending user breakpoint there, and stops at the first later position that carries one
+   (true pc, that breakpoint's number), at a Prompt; or reports the exit *)
+Theorem C01_run : no_stutter -> (0 < length tr)%nat -> forall s, PreStart s ->
+  let U := pending_addrs off s in
+  match next_hit tr [entry] O with
+  | None => exists s' r, continue_execution code tr rbrk off has_place exit_code s = Ok (s', r) /\
+                         exit_seen r /\ ExitedOK s'
+  | Some e =>
+      match next_hit tr U (S e) with
+      | Some j => exists m' b s', continue_execution code tr rbrk off has_place exit_code s
+                                    = Ok (s', CStop (StopBp (pc_at j) (b_num b))) /\
+                    Prompt s' j m' /\ r_dis (s_reg s') = [] /\
+                    find_bp (pc_at j) (r_bps (s_reg s')) = Some b /\ b_ty b = TUser /\
+                    (forall a, In a (uaddrs (r_bps (s_reg s'))) <-> In a U) /\
+                    (exists u, In u (r_dis (s_reg s)) /\ u_key u = Reloc (pc_at j) /\ u_num u = b_num b)
+      | None => exists s' r, continue_execution code tr rbrk off has_place exit_code s = Ok (s', r) /\
+                             exit_seen r /\ ExitedOK s'
+      end
+  end.
+Proof.
+  intros NS Hlen s [Hs Hb He Ho] U. unfold continue_execution. rewrite Hs.
+  (* enable_entry_breakpoint *)
+  unfold enable_entry.
+  destruct (find (fun u => bty_eqb (u_ty u) TEntry) (r_dis (s_reg s))) as [u0|] eqn:Ef.
+  2:{ eapply find_none in Ef; [|exact He]. cbn in Ef. discriminate. }
+  apply find_some in Ef. destruct Ef as [Hu0 Ht0].
+  assert (u0 = entry_u).
+  { destruct (Ho u0 Hu0) as [|[Ht _]]; [assumption|]. rewrite Ht in Ht0. discriminate. }
+  subst u0. unfold try_into_brkpt. cbn [entry_u u_key u_ty u_num bind].
+  replace (entry - off + off) with entry by lia.
+  destruct (readable_some entry H_entry_readable) as [ce Hce].
+  assert (Wnil: WF [] (p_mem (fresh_proc code tr))).
+  { constructor; [constructor|intros b []|intro x; reflexivity]. }
+  destruct (add_and_enable_ok [] (fresh_proc code tr) (mk_bp entry 0 0 false TEntry) ce) as (p1 & E1 & S1 & W1 & M1); auto.
+  rewrite Hb, E1. cbn [bind fst snd].
+  set (eb := bp_set (mk_bp entry 0 0 false TEntry) ce true) in *.
+  set (dis1 := del_dis (Glob (entry - off)) (r_dis (s_reg s))).
+  assert (Hins: ins_bp eb [] = [eb]) by reflexivity. rewrite Hins in *.
+  set (m1 := p_mem p1) in *.
+  assert (Hp1: p1 = proc_at m1 0).
+  { destruct p1 as [mm a1 ps1 pc1 ex1]. destruct S1 as (A&B&C&D). unfold fresh_proc in *. cbn in *. subst.
+    unfold proc_at. f_equal. symmetry. now apply Nat.ltb_lt. }
+  (* the pending user breakpoints *)
+  assert (Hdis1: Forall GoodU dis1).
+  { apply Forall_forall. intros u Hu. unfold dis1, del_dis in Hu. apply filter_In in Hu. destruct Hu as [Hu Hk].
+    destruct (Ho u Hu) as [->|G]; [|exact G]. cbn in Hk. rewrite N.eqb_refl in Hk. discriminate. }
+  assert (HU: forall a, In a U <-> exists u, In u dis1 /\ u_key u = Reloc a).
+  { intro a. unfold U, pending_addrs. rewrite in_map_iff. split.
+    - intros [u [Ea Hu]]. apply filter_In in Hu. destruct Hu as [Hu Ht].
+      destruct (Ho u Hu) as [->|G]; [cbn in Ht; discriminate|].
+      destruct G as (_ & a' & Hk & _). rewrite Hk in Ea. cbn in Ea. subst a'.
+      exists u. split; [|exact Hk]. unfold dis1, del_dis. apply filter_In. split; [exact Hu|]. now rewrite Hk.
+    - intros [u [Hu Hk]]. unfold dis1, del_dis in Hu. apply filter_In in Hu. destruct Hu as [Hu _].
+      exists u. split; [now rewrite Hk|]. apply filter_In. split; [exact Hu|].
+      destruct (Ho u Hu) as [->|(Ht & _)]; [discriminate|]. now rewrite Ht. }
+  (* first iteration of the loop: run to the entry point *)
+  unfold loop_fuel. remember (S (length tr)) as f1 eqn:Ef1. cbn [cont_loop s_proc]. rewrite Hp1. unfold fuel0.
+  rewrite (run_cpu_spec [eb] m1 (S (length tr)) 0 W1 Hlen) by lia.
+  assert (Haddr: addrs [eb] = [entry]) by reflexivity. rewrite Haddr.
+  unfold next_hit. change (skipn 0 tr) with tr.
+  destruct (next_hit_from [entry] tr 0) as [e|] eqn:En.
+  2:{ cbn [fst snd]. eexists. eexists. split; [reflexivity|]. split; [left; reflexivity|apply exit_state_ok]. }
+  pose proof (next_hit_trace [entry] 0 e (Nat.le_0_l _) En) as (Hel & Hee & _).
+  apply memb_iff in Hee. destruct Hee as [Hee|[]].
+  cbn [fst snd]. rewrite trap_pc, trap_rewind. cbn [s_reg r_bps r_dis r_next].
+  rewrite <- Hee. unfold find_bp. cbn [find b_addr eb bp_set]. rewrite N.eqb_refl.
+  cbn [has_tmp existsb is_temp b_ty eb bp_set bty_eqb andb orb negb].
+  (* enable_all_breakpoints *)
+  assert (Hal0: p_alive (proc_at m1 e) = true) by (cbn [p_alive proc_at]; apply Nat.ltb_lt; lia).
+  pose proof (enable_all_ok dis1 [eb] (proc_at m1 e) Hdis1 W1 Hal0) as EA. cbn zeta in EA.
+  fold dis1.
+  destruct (enable_all_from code off has_place dis1 [eb] (proc_at m1 e)) as [bps2 p2] eqn:Eea.
+  cbn [fst snd] in EA |- *. destruct EA as (W2 & S2 & (P1 & P2 & P3)).
+  (* the linker-map breakpoint *)
+  destruct (readable_some rbrk H_rbrk_readable) as [cr Hcr].
+  assert (Hal2: p_alive p2 = true) by (destruct S2 as (A&_); congruence).
+  destruct (add_and_enable_ok bps2 p2 (mk_bp rbrk 0 0 false TLinker) cr W2 Hal2 H_rbrk_readable Hcr) as (p3 & E3 & S3 & W3 & M3).
+  rewrite E3. cbn [bind fst snd].
+  set (lb := bp_set (mk_bp rbrk 0 0 false TLinker) cr true) in *.
+  set (bps3 := ins_bp lb bps2) in *.
+  assert (Hp3: p3 = proc_at (p_mem p3) e).
+  { pose proof (same_but_mem_trans _ _ _ S2 S3) as (A&B&C&D). clear - A B C D.
+    destruct p3 as [mm a1 ps1 pc1 ex1]. cbn [p_alive p_pos p_pc p_exec p_mem proc_at] in *.
+    rewrite A, B, C, D. reflexivity. }
+  set (m3 := p_mem p3) in *.
+  (* facts about the registry after the entry-point handling *)
+  assert (Heb_in: In eb bps3).
+  { right. apply in_del_bp. split.
+    - apply P2; [now left|]. intros u Hu Ek. cbn [b_addr eb bp_set] in Ek.
+      rewrite Forall_forall in Hdis1. destruct (Hdis1 u Hu) as (_ & a & Hk & _ & _ & _ & Hne & _). congruence.
+    - cbn. auto. }
+  assert (Hin3: forall b, In b bps3 -> b = lb \/ b = eb \/
+            (b_ty b = TUser /\ b_addr b <> rbrk /\ exists u, In u dis1 /\ u_key u = Reloc (b_addr b) /\ b_num b = u_num u)).
+  { intros b [Hb3|Hb3]; [now left|]. apply in_del_bp in Hb3. destruct Hb3 as [Hb3 Hnr]. right.
+    destruct (P1 b Hb3) as [[Hbe|[]]|(Hty & Hex)]; [now left|]. right. cbn [b_addr lb bp_set] in Hnr. auto. }
+  assert (Hua: forall a, In a (uaddrs bps3) <-> In a U).
+  { intro a. rewrite uaddrs_in, HU. split.
+    - intros (b & Hb3 & Hty & Hab). destruct (Hin3 b Hb3) as [->|[->|(_ & _ & u & Hu & Hk & _)]]; try discriminate.
+      exists u. rewrite <- Hab. auto.
+    - intros (u & Hu & Hk). destruct (P3 u Hu) as (b & Hb2 & Hkb & Hty).
+      assert (b_addr b = a) by congruence. exists b. split; [|auto]. right. apply in_del_bp. split; [exact Hb2|].
+      cbn [b_addr lb bp_set]. rewrite Forall_forall in Hdis1.
+      destruct (Hdis1 u Hu) as (_ & a' & Hk' & _ & _ & _ & _ & Hnb). congruence. }
+  assert (St3: Steady bps3 (S e)).
+  { constructor.
+    - intros b Hb3. destruct (Hin3 b Hb3) as [->|[->|(Hty & _)]]; cbn; auto.
+    - intros b Hb3 Hty k Hk. destruct (Hin3 b Hb3) as [->|[->|(Hty' & _)]]; [discriminate| |congruence].
+      cbn [b_addr eb bp_set]. intro E. assert (k = e) by (apply H_entry_once; auto; lia). lia. }
+  (* step over the entry-point breakpoint *)
+  unfold step_over_breakpoint. rewrite Hp3. cbn [p_pc proc_at]. rewrite <- Hee.
+  destruct (find_bp_in entry bps3) as [b0 Eb0].
+  { unfold addrs. apply in_map_iff. exists eb. split; [reflexivity|exact Heb_in]. }
+  rewrite Eb0. destruct (find_bp_some _ _ _ Eb0) as [Hb0 Hab0].
+  destruct (wf_bp _ _ W3 b0 Hb0) as (Hen0 & _). rewrite Hen0.
+  assert (Hab0': b_addr b0 = pc_at e) by congruence.
+  assert (Hsame: forall i0, next_hit_from (uaddrs bps3) (skipn i0 tr) i0 = next_hit_from U (skipn i0 tr) i0).
+  { intro i0. apply next_hit_from_ext. intro a. apply memb_ext. exact Hua. }
+  destruct (Nat.eq_dec (S e) (length tr)) as [Elast|Elast].
+  - (* the entry point is the last instruction: the step ends the process *)
+    destruct (step_over_core_exit bps3 m3 e b0 W3 Elast Hb0 Hab0') as (m4 & Ec).
+    rewrite Ec. cbn [bind fst snd]. rewrite Elast, skipn_all. cbn [next_hit_from].
+    eexists. eexists. split; [reflexivity|]. split; [right; reflexivity|apply exit_by_step_ok].
+  - assert (HSe: (S e < length tr)%nat) by lia.
+    destruct (step_over_core_once bps3 m3 e b0 NS W3 HSe Hb0 Hab0') as (m4 & Ec & W4 & Hm4).
+    rewrite Ec. cbn [bind fst snd]. rewrite (put_bp_same bps3 b0 (wf_nodup _ _ W3) Hb0).
+    match goal with |- context [cont_loop _ _ _ _ _ _ ?f ?s2] =>
+      pose proof (cont_steady NS f (S e) m4 s2) as C end.
+    cbn [with_rp s_reg s_proc r_bps] in C.
+    assert (Hfu: (f1 > length tr - S e)%nat) by lia.
+    specialize (C eq_refl HSe W4 St3 Hfu). rewrite Hsame in C.
+    destruct (next_hit_from U (skipn (S e) tr) (S e)) as [j|] eqn:Enj.
+    + destruct C as (m' & b & E & F & T & W' & Hm').
+      apply next_hit_trace in Enj; [|lia]. destruct Enj as (Hj & _).
+      exists m', b. eexists. split; [exact E|].
+      split; [|split; [reflexivity|split; [exact F|split; [exact T|split; [exact Hua|]]]]].
+      * constructor; cbn [with_bps with_rp s_status s_proc s_reg r_bps]; auto; [lia|].
+        eapply steady_mono; [exact St3|lia].
+      * destruct (find_bp_some _ _ _ F) as [Hbin Hbaddr].
+        destruct (Hin3 b Hbin) as [->|[->|(_ & _ & u & Hu & Hk & Hn)]]; try discriminate.
+        exists u. unfold dis1, del_dis in Hu. apply filter_In in Hu. destruct Hu as [Hu _]. rewrite <- Hbaddr.
+        split; [exact Hu|split; [exact Hk|symmetry; exact Hn]].
+    + exact C.
+Qed.
+
+(* ---------- whole histories [Add*; Continue; (Add | RemoveAddr | Continue)*] ---------- *)
+(* H_boundary for one user address *)
+Definition GoodA (a : N) : Prop :=
+  mapped code a = true /\ has_place a = true /\ readable code a /\ a <> entry /\ a <> rbrk.
+
+(* states before `run`: the initial state after any number of `break <addr>` *)
+Inductive Pre : st -> Prop :=
+| Pre_init : Pre (init_launched code tr entry off)
+| Pre_add : forall s a, Pre s -> GoodA a -> Pre (fst (add_at_addr code has_place s a)).
+
+(* states of the running program reached by run / break / break remove / continue, while the
+   commands stop at breakpoints *)
+Inductive Run : st -> Prop :=
+| Run_start : forall s s' pc n, Pre s ->
+    continue_execution code tr rbrk off has_place exit_code s = Ok (s', CStop (StopBp pc n)) -> Run s'
+| Run_add : forall s a, Run s -> GoodA a -> Run (fst (add_at_addr code has_place s a))
+| Run_remove : forall s a, Run s ->
+    Run (let x := remove_by_addr (Reloc a) (s_reg s) (s_proc s) in with_rp s (fst (fst x)) (snd (fst x)))
+| Run_cont : forall s s' pc n, Run s ->
+    continue_execution code tr rbrk off has_place exit_code s = Ok (s', CStop (StopBp pc n)) -> Run s'.
+
+Lemma pre_prestart : forall s, Pre s -> PreStart s.
+Proof.
+  induction 1 as [|s a HP IH (Hm & Hp & Hr & He & Hb)]; [apply prestart_init|].
+  now apply prestart_add.
+Qed.
+
+Lemma exit_seen_not_bp : forall r pc n, exit_seen r -> r <> CStop (StopBp pc n).
+Proof. intros r pc n [->| ->]; discriminate. Qed.
+
+(* every state of such a history is a Prompt: C01_continue / add_prompt / remove_prompt /
+   mem_is_patch_prompt / C02_transparent_prompt apply at every step of the history *)
+Theorem run_is_prompt : no_stutter -> (0 < length tr)%nat -> forall s, Run s ->
+  exists i m, Prompt s i m /\ r_dis (s_reg s) = [].
+Proof.
+  intros NS Hlen s HR. induction HR as [s s' pc n HP E|s a HR IH G|s a HR IH|s s' pc n HR IH E].
+  - pose proof (C01_run NS Hlen s (pre_prestart s HP)) as C. cbn zeta in C.
+    destruct (next_hit tr [entry] 0) as [e|].
+    + destruct (next_hit tr (pending_addrs off s) (S e)) as [j|].
+      * destruct C as (m' & b & s'' & E' & P & Hd & _). rewrite E in E'. inversion E'; subst. eauto.
+      * destruct C as (s'' & r & E' & Hx & _). rewrite E in E'. inversion E'; subst.
+        exfalso. eapply exit_seen_not_bp; eauto.
+    + destruct C as (s'' & r & E' & Hx & _). rewrite E in E'. inversion E'; subst.
+      exfalso. eapply exit_seen_not_bp; eauto.
+  - destruct IH as (i & m & P & Hd). destruct G as (Hm & Hp & Hr & _).
+    destruct (readable_some a Hr) as [c Hc].
+    destruct (add_prompt s i m a c P Hm Hp Hr Hc) as (s' & m' & E & P' & _ & _ & Hd').
+    rewrite E. cbn [fst]. exists i, m'. split; [exact P'|congruence].
+  - destruct IH as (i & m & P & Hd).
+    destruct (remove_prompt s i m a P Hd) as (m' & v & _ & P' & _ & Hd' & _).
+    exists i, m'. split; [exact P'|exact Hd'].
+  - destruct IH as (i & m & P & Hd).
+    pose proof (C01_continue NS s i m P) as C. cbn zeta in C.
+    destruct (next_hit tr (uaddrs (r_bps (s_reg s))) (S i)) as [j|].
+    + destruct C as (m' & b & s'' & E' & _ & _ & _ & P' & _ & Hd'). rewrite E in E'. inversion E'; subst.
+      exists j, m'. split; [exact P'|congruence].
+    + destruct C as (s'' & r & E' & Hx & _). rewrite E in E'. inversion E'; subst.
+      exfalso. eapply exit_seen_not_bp; eauto.
+Qed.
+
+End Startup.
+
+(* ---------- the instruction that ends the process (repair c0ceee6) ---------- *)
+(* continuing from a prompt on the last instruction of the trace (with or without a breakpoint on
+   it) reports the exit with the program's code and leaves the registry / process as a normal exit *)
+Theorem C02_continue_from_last : no_stutter -> forall s i m, Prompt s i m -> S i = length tr ->
+  exists s' r, continue_execution code tr rbrk off has_place exit_code s = Ok (s', r) /\
+               exit_seen r /\ ExitedOK s'.
+Proof.
+  intros NS s i m P Hl. pose proof (C01_continue NS s i m P) as C. cbn zeta in C.
+  unfold next_hit in C. rewrite Hl, skipn_all in C. cbn [next_hit_from] in C. exact C.
+Qed.
+
+(* stepi on the last instruction: Err(ProcessExit(exit_code)) after the exit handling *)
+Theorem C02_stepi_last : forall s i m, Prompt s i m -> S i = length tr ->
+  exists s', stepi code tr off exit_code s = (s', OExit exit_code) /\ ExitedOK s'.
+Proof.
+  intros s i m [Hst Hp Hi W St] Hl. unfold stepi. rewrite Hst, Hp. cbn [p_pc proc_at].
+  destruct (find_bp (pc_at i) (r_bps (s_reg s))) as [b|] eqn:Eb.
+  - destruct (find_bp_some _ _ _ Eb) as [Hb Hab]. destruct (wf_bp _ _ W b Hb) as (Hen & _).
+    unfold step_over_breakpoint. cbn [p_pc proc_at]. rewrite Eb, Hen.
+    destruct (step_over_core_exit _ m i b W Hl Hb Hab) as (m1 & Ec). rewrite Ec. cbn [bind fst snd].
+    eexists. split; [reflexivity|apply exit_by_step_ok].
+  - pose proof (find_bp_none _ _ Eb) as Hn. unfold fuel0. cbn [ModelBpMachine.single_step].
+    rewrite (cpu_step_exec _ _ _ W Hi Hn). cbn [fst snd].
+    replace (p_alive (proc_at m (S i))) with false
+      by (symmetry; unfold proc_at; cbn [p_alive]; apply Nat.ltb_ge; lia).
+    cbn [fst snd]. rewrite Hl. eexists. split; [reflexivity|apply exit_by_step_ok].
+Qed.
+
 End Proofs.
+
+
+(* Drop of a debugger whose launched program was never started (or was re-installed by a restart and
+   not yet run): SIGKILL, then waitpid until the child has really terminated (repair 74c6c3e): nothing
+   is left, the registry is untouched *)
+Theorem C11_drop_never_started : forall off s, s_status s = Unload -> s_detached s = false -> s_external s = false ->
+  s_fate (drop off s) = FReaped /\ s_reg (drop off s) = s_reg s.
+Proof. intros off s Hs Hd He. unfold drop. rewrite Hd, He, Hs. cbn. auto. Qed.
+
+Example C11_drop_init : forall code tr entry off,
+  s_fate (drop off (init_launched code tr entry off)) = FReaped.
+Proof. reflexivity. Qed.
 
 (* ---------- decidable forms of the hypotheses ---------- *)
 Fixpoint no_stutterb (l : list N) : bool :=
@@ -874,6 +1245,40 @@ Definition wrun (tr : list N) (ops : list op) : st * list outcome :=
 Definition wspec (tr : list N) (ops : list op) : list outcome := abs_run tr 10 7%Z abs_init ops.
 Definition tr_w : list N := [10; 20; 30; 20; 30; 40; 50].
 
+(* decidable form of "the entry point is executed at most once" *)
+Definition entry_onceb (entry : N) (tr : list N) : bool :=
+  Nat.leb (length (filter (N.eqb entry) tr)) 1.
+
+Lemma count_two : forall (e : N) (l : list N) k k', (k < k')%nat -> (k' < length l)%nat ->
+  nth k l 0 = e -> nth k' l 0 = e -> (2 <= length (filter (N.eqb e) l))%nat.
+Proof.
+  intros e l. induction l as [|a t IH]; intros k k' Hlt Hk' E1 E2; cbn [length] in Hk'; [lia|].
+  destruct k' as [|k']; [lia|]. destruct k as [|k].
+  - cbn [nth] in E1, E2. subst a. cbn [filter]. rewrite N.eqb_refl. cbn [length].
+    assert (In e t). { rewrite <- E2. apply nth_In. lia. }
+    assert (In e (filter (N.eqb e) t)). { apply filter_In. split; [assumption|apply N.eqb_refl]. }
+    destruct (filter (N.eqb e) t); [contradiction|cbn [length]; lia].
+  - cbn [nth] in E1, E2. cbn [filter]. assert (2 <= length (filter (N.eqb e) t))%nat by (eapply (IH k k'); eauto; lia).
+    destruct (e =? a); cbn [length]; lia.
+Qed.
+
+Lemma entry_onceb_sound : forall entry tr, entry_onceb entry tr = true ->
+  forall k k', (k < length tr)%nat -> (k' < length tr)%nat -> pc_at tr k = entry -> pc_at tr k' = entry -> k = k'.
+Proof.
+  intros entry tr H k k' Hk Hk' E1 E2. unfold entry_onceb in H. apply Nat.leb_le in H. unfold pc_at in *.
+  destruct (Nat.lt_trichotomy k k') as [Hlt|[Heq|Hgt]]; [|exact Heq|].
+  - pose proof (count_two entry tr k k' Hlt Hk' E1 E2). lia.
+  - pose proof (count_two entry tr k' k Hgt Hk E2 E1). lia.
+Qed.
+
+(* the start-up theorem applies to the witness machine: its conclusion computed by the theorem
+   agrees with what vm_compute gives for the model *)
+Example startup_hypotheses_nonvacuous :
+  entry_onceb 10 tr_w = true /\ trace_okb nop tr_w = true /\ no_stutterb tr_w = true /\
+  next_hit tr_w [10] 0 = Some 0%nat /\ next_hit tr_w [20] 1 = Some 1%nat /\
+  snd (wrun tr_w [Add 20; Continue]) = [OAdded 1; OStop (StopBp 20 1)].
+Proof. vm_compute. auto 10. Qed.
+
 Example hypotheses_nonvacuous : trace_okb nop tr_w = true /\ no_stutterb tr_w = true.
 Proof. vm_compute. auto. Qed.
 
@@ -906,10 +1311,14 @@ Theorem C01_self_loop_refuted : exists tr ops,
 Proof. exists [10; 20; 20; 30; 40], [Add 20; Continue; Continue]. vm_compute. auto. Qed.
 
 (* stepping (stepi, or continue from a breakpoint) over the instruction that terminates the
-   process unwraps a removed tracee: tracer.rs:538 *)
-Theorem C02_exit_step_panics : exists tr ops,
-  snd (wrun tr ops) = [OAdded 1; OStop (StopBp 40 1); ODone; OPanic SITE_TRACEE_GONE].
-Proof. exists [10; 20; 40; 50], [Add 40; Continue; StepI; StepI]. vm_compute. reflexivity. Qed.
+   process reports the exit with the program's code (was a panic before /repo c0ceee6); the user
+   breakpoint survives as an uninit breakpoint with its number, as after a normal exit *)
+Example C02_exit_step_example :
+  let x := wrun [10; 20; 40; 50] [Add 40; Continue; StepI; StepI] in
+  snd x = [OAdded 1; OStop (StopBp 40 1); ODone; OExit 7] /\
+  s_status (fst x) = Exited /\ s_fate (fst x) = FReaped /\ snapshot (s_reg (fst x)) = [(1, Glob 40)] /\
+  snd (wrun [10; 20; 40] [Add 40; Continue; Continue]) = [OAdded 1; OStop (StopBp 40 1); OExit 7].
+Proof. vm_compute. auto. Qed.
 
 (* C02_error_paths: an early `?` return between the installation of the temporaries and their
    removal leaves them behind: the byte stays 0xCC, the registry keeps a Temporary; from then on
